@@ -26,6 +26,34 @@ type BitCase struct {
 	B int64 `json:"b"`
 }
 
+// BitFracCase: bit operators on finite non-integers: they act on the integer value (truncated toward zero).
+type BitFracCase struct {
+	A string `json:"a"`
+	B string `json:"b"`
+}
+
+var c18BitFrac *eng.Kind[BitFracCase]
+
+func judgeBitFrac(c BitFracCase) *eng.Fail {
+	a, b := parseOperand(c.A), parseOperand(c.B)
+	ia, ib := ratTrunc(a.Rat()).Int64(), ratTrunc(b.Rat()).Int64()
+	src := "[" + c.A + " & " + c.B + ", " + c.A + " | " + c.B + ", " + c.A + " ^ " + c.B + ", ~" + c.A + "]"
+	o, err := evalWith(src, map[string]interface{}{})
+	if err != nil || o.panicked || o.err != nil {
+		return eng.F("C18/eval", "%s: %v %v %s", src, err, o.err, o.panicMsg)
+	}
+	arr := o.val.([]interface{})
+	want := []int64{ia & ib, ia | ib, ia ^ ib, ^ia}
+	for k, name := range []string{"&", "|", "^", "~"} {
+		d, ok := decOf(arr[k])
+		if !ok || !d.Finite() || d.Cmp(ref.FromInt64(want[k])) != 0 {
+			return eng.F("C18/bit-fraction", "%s %s %s = %s, expected %d (operands act through their integer values %d and %d)", c.A, name, c.B, show(arr[k]), want[k], ia, ib)
+		}
+	}
+	outcome(fmt.Sprint("frac", want))
+	return nil
+}
+
 // ConvCase: toFloat / finite on non-number inputs.
 type ConvCase struct {
 	Expr string `json:"expr"`
@@ -50,6 +78,7 @@ func init() {
 	c18List = eng.NewKind(c, "maxmin", judgeMaxMin)
 	c18Bit = eng.NewKind(c, "bits", judgeBits)
 	c18Conv = eng.NewKind(c, "conv", judgeConv)
+	c18BitFrac = eng.NewKind(c, "bits-fraction", judgeBitFrac)
 }
 
 var half = big.NewRat(1, 2)
@@ -417,6 +446,21 @@ func runC18(w *eng.W) {
 			c := BitCase{a, b}
 			w.Sample("bits", c)
 			c18Bit.Do(w, c)
+		}
+	}
+	fr := []string{"0", "2.7", "(-3.9)", "0.5", "(-0.5)", "2.999999", "7", "(-1)", "255.25", "1e-20", "(-0.0)", "4294967296.75", "(-2.5)"}
+	for _, a := range fr {
+		if !w.Take() {
+			continue
+		}
+		for _, b := range fr {
+			w.State(1)
+			w.Trans(4)
+			w.Trace(1)
+			w.Note("leg:bits-fraction", 1)
+			c := BitFracCase{a, b}
+			w.Sample("bits-fraction", c)
+			c18BitFrac.Do(w, c)
 		}
 	}
 	// conversions
